@@ -324,6 +324,16 @@ func exprStr(e ast.Node) string {
 	return s
 }
 
+// fullStr prints a node without truncation.
+func fullStr(e ast.Node) string {
+	if e == nil {
+		return "<nil>"
+	}
+	var buf bytes.Buffer
+	printer.Fprint(&buf, token.NewFileSet(), e)
+	return strings.Join(strings.Fields(buf.String()), " ")
+}
+
 func nodeStr(fset *token.FileSet, n ast.Node) string { return exprStr(n) }
 
 // isNoReturn reports calls that never return: panic, os.Exit, log.Fatal*, (*zap.Logger).Fatal/Panic.
